@@ -19,11 +19,23 @@ var cronParser = cron.NewParser(
 
 // parseSchedules parses the schedule values and returns a list of schedules.
 // each schedule is parsed as a cron expression.
+// parseCron parses one cron expression. The parser panics on some inputs
+// (robfig/cron v3 slices out of range on "TZ=UTC" without a following
+// expression); that is an invalid schedule, not a reason to crash the caller.
+func parseCron(v string) (parsed cron.Schedule, err error) {
+	defer func() {
+		if r := recover(); r != nil {
+			parsed, err = nil, fmt.Errorf("cron parser failed on %q: %v", v, r)
+		}
+	}()
+	return cronParser.Parse(v)
+}
+
 func parseSchedules(values []string) ([]Schedule, error) {
 	var ret []Schedule
 
 	for _, v := range values {
-		parsed, err := cronParser.Parse(v)
+		parsed, err := parseCron(v)
 		if err != nil {
 			return nil, fmt.Errorf("%w: %s", errInvalidSchedule, err)
 		}
@@ -98,7 +110,7 @@ func parseScheduleMap(
 		}
 
 		for _, v := range values {
-			if _, err := cronParser.Parse(v); err != nil {
+			if _, err := parseCron(v); err != nil {
 				return fmt.Errorf("%w: %s", errInvalidSchedule, err)
 			}
 			*targets = append(*targets, v)
